@@ -12,6 +12,7 @@
 -/
 import MxModel.Gen.KFarm
 import MxModel.Lemmas.FarmSpec
+import MxModel.Lemmas.KTactic
 
 namespace Mx.KFarm
 open Mx Mx.Gen Mx.Farm
@@ -21,20 +22,8 @@ open Mx Mx.Gen Mx.Farm
 theorem calculate_per_block_rewards_eq (cur last perBlock : Nat) (produce : Bool) :
     KFarm.calculate_per_block_rewards cur last perBlock produce =
       some (if cur ≤ last ∨ produce = false then 0 else perBlock * (cur - last)) := by
-  by_cases h : cur ≤ last ∨ ¬ (produce = true)
-  · have h' : cur ≤ last ∨ produce = false := by
-      rcases h with h | h
-      · exact Or.inl h
-      · exact Or.inr (by simpa using h)
-    simp only [KFarm.calculate_per_block_rewards, if_pos h, if_pos h', Option.pure_def]
-  · have h' : ¬ (cur ≤ last ∨ produce = false) := by
-      intro c; apply h
-      rcases c with c | c
-      · exact Or.inl c
-      · exact Or.inr (by simp [c])
-    have hle : last ≤ cur := by omega
-    simp only [KFarm.calculate_per_block_rewards, if_neg h, if_neg h', sub?, if_pos hle,
-      Option.bind_eq_bind, Option.bind_some, Option.pure_def]
+  k_defs [KFarm.calculate_per_block_rewards]
+  cases produce <;> k_solve
 
 /-- on a model state the source's emission is the model's `minted` (the amount `generate` adds to
     the reserve and to the `generated` counter) -/
@@ -53,16 +42,8 @@ theorem calculate_per_block_rewards_minted (s : St) :
 theorem calculate_rewards_eq (amount rpsTok dsc rpsNow : Nat) :
     KFarm.calculate_rewards amount rpsTok dsc rpsNow =
       if rpsTok < rpsNow ∧ dsc = 0 then none else some (baseReward dsc rpsNow amount rpsTok) := by
-  by_cases h : rpsTok < rpsNow
-  · have hle : rpsTok ≤ rpsNow := by omega
-    by_cases hd : dsc = 0
-    · simp only [KFarm.calculate_rewards, gt_iff_lt, if_pos h, sub?, if_pos hle, div?, if_pos hd,
-        if_pos (And.intro h hd), Option.bind_eq_bind, Option.bind_some]
-    · have hn : ¬ (rpsTok < rpsNow ∧ dsc = 0) := fun c => hd c.2
-      simp only [KFarm.calculate_rewards, baseReward, gt_iff_lt, if_pos h, sub?, if_pos hle, div?,
-        if_neg hd, if_neg hn, Option.bind_eq_bind, Option.bind_some]
-  · have hn : ¬ (rpsTok < rpsNow ∧ dsc = 0) := fun c => h c.1
-    simp only [KFarm.calculate_rewards, baseReward, gt_iff_lt, if_neg h, if_neg hn, Option.pure_def]
+  k_defs [KFarm.calculate_rewards, baseReward]
+  k_solve
 
 /-- with a non-zero division safety constant the source always returns the model's base reward -/
 theorem calculate_rewards_some (amount rpsTok dsc rpsNow : Nat) (hd : dsc ≠ 0) :
@@ -75,18 +56,8 @@ theorem calculate_rewards_some (amount rpsTok dsc rpsNow : Nat) (hd : dsc ≠ 0)
 theorem generate_aggregated_rewards_eq (dsc supply rps reserve emitted : Nat) :
     KFarm.generate_aggregated_rewards dsc supply rps reserve emitted =
       some (rps + (if supply = 0 then 0 else emitted * dsc / supply), reserve + emitted) := by
-  by_cases h : 0 < emitted
-  · by_cases hs : supply = 0
-    · have hs' : ¬ supply ≠ 0 := fun c => c hs
-      simp only [KFarm.generate_aggregated_rewards, gt_iff_lt, if_pos h, if_neg hs', if_pos hs,
-        Nat.add_zero, Option.pure_def]
-    · have hs' : supply ≠ 0 := hs
-      simp only [KFarm.generate_aggregated_rewards, gt_iff_lt, if_pos h, if_pos hs', div?,
-        if_neg hs, Option.bind_eq_bind, Option.bind_some, Option.pure_def]
-  · have h0 : emitted = 0 := by omega
-    subst h0
-    simp only [KFarm.generate_aggregated_rewards, gt_iff_lt, if_neg h, Option.pure_def,
-      Nat.zero_mul, Nat.zero_div, Nat.add_zero, ite_self]
+  k_defs [KFarm.generate_aggregated_rewards]
+  k_solve
 
 /-- a successful model `generate` whose boosted cut is 0 (percentage 0, or a cut that rounds to 0)
     is a run of the default wrapper's `generate_aggregated_rewards` fed with the source's own
